@@ -334,7 +334,7 @@ func (c WLCfg) build() builtWL {
 	m := mark()
 	var wl *spg.WordList
 	if !c.NilList {
-		in := append([]string{}, c.Words...)
+		in := append([]string{}, realWords(c.Words)...)
 		var err error
 		wl, err = spg.NewWordList(in)
 		if err != nil {
